@@ -268,6 +268,14 @@ pub fn record(rec: &mut Recorder, seed: u64, thorough: bool) {
     force(None);
     api_campaign::<f32>(rec, &mut r, thorough);
     api_campaign::<u8>(rec, &mut r, thorough);
+    // second sentence of C07: padding cells of real score tables (sequences from striping and from
+    // StripedSequence::sample) are -inf when the wildcard column is, so max() is the best valid score
+    for l in [0usize, 1, 5, 31, 32, 33, 40, 64, 70, 100, 130] {
+        for from_sample in [false, true] {
+            crate::c01::sampled::<lightmotif::abc::Dna>(rec, &mut r, l, from_sample);
+            crate::c01::sampled::<lightmotif::abc::Protein>(rec, &mut r, l, from_sample);
+        }
+    }
     for _ in 0..(if thorough { 200 } else { 40 }) {
         let n = r.gen_range(0..40);
         let vals: Vec<i64> = (0..n).map(|_| r.gen_range(-30..30)).collect();
